@@ -39,6 +39,47 @@ Definition parse_int (s : str) : option Z :=
   | _ => parse_digits s 0
   end.
 
+(** * hexadecimal text of an int: hex(value) / int(text, 16).  Used for ints of more than MAX_DECIMAL_BITS bits:
+   str() / int() refuse huge decimal conversions (sys.set_int_max_str_digits), hex() / int(.., 16) do not *)
+Definition hex_digit (d : Z) : Z := if d <? 10 then 48 + d else 87 + d.      (* 0-9, a-f *)
+Fixpoint hex_digits (fuel : nat) (n : Z) (acc : str) : str :=
+  match fuel with
+  | O => acc
+  | S f => if n <? 16 then hex_digit n :: acc else hex_digits f (n / 16) (hex_digit (n mod 16) :: acc)
+  end.
+(* hex(value): '0x..' / '-0x..' *)
+Definition hex_text (z : Z) : str :=
+  if z <? 0 then 45 :: 48 :: 120 :: hex_digits (Z.to_nat (Z.log2 (- z)) + 1) (- z) []
+  else 48 :: 120 :: hex_digits (Z.to_nat (Z.log2 z) + 1) z [].
+Definition hex_value (d : Z) : option Z :=
+  if (48 <=? d) && (d <=? 57) then Some (d - 48)
+  else if (97 <=? d) && (d <=? 102) then Some (d - 87)
+  else if (65 <=? d) && (d <=? 70) then Some (d - 55)
+  else None.
+Fixpoint parse_hex (s : str) (acc : Z) : option Z :=
+  match s with
+  | [] => Some acc
+  | d :: r => match hex_value d with Some v => parse_hex r (acc * 16 + v) | None => None end
+  end.
+
+Definition bit_length (z : Z) : Z := if z =? 0 then 0 else Z.log2 (Z.abs z) + 1.
+Definition MAX_DECIMAL_BITS : Z := 2048.
+Definition int_text (z : Z) : str := if bit_length z >? MAX_DECIMAL_BITS then hex_text z else decimal z.
+Definition starts_0x (s : str) : bool :=
+  match s with a :: b :: _ => (a =? 48) && (b =? 120) | _ => false end.
+Definition parse_int_text (s : str) : option Z :=
+  if starts_0x s then
+    match skipn 2 s with [] => None | r => parse_hex r 0 end
+  else
+    match s with
+    | a :: r =>
+        if (a =? 45) && starts_0x r then
+          match skipn 2 r with [] => None | r' => option_map Z.opp (parse_hex r' 0) end
+        else parse_int s
+    | [] => parse_int s
+    end.
+
+
 (** * to json *)
 Definition has_surrogate (s : str) : bool := existsb (fun ch => (55296 <=? ch) && (ch <=? 57343)) s.
 Definition py_repr (s : str) : str := s.               (* repr(), canonicalised by the harness *)
@@ -52,7 +93,7 @@ Definition float_to_json (bits : Z) : json :=
   else if float_is_nan bits then JObj [(lit "float", JStr (lit "nan"))]
   else JFloat bits.
 Definition int_to_json (z : Z) : json :=
-  if (z <? MIN_INTEGER) || (z >? MAX_INTEGER) then JObj [(lit "int", JStr (decimal z))] else JInt z.
+  if (z <? MIN_INTEGER) || (z >? MAX_INTEGER) then JObj [(lit "int", JStr (int_text z))] else JInt z.
 Definition str_to_json (s : str) : json :=
   if has_surrogate s then JObj [(lit "string", JStr (py_repr s))] else JStr s.
 
@@ -265,7 +306,7 @@ Definition float_from_json (j : json) : res Z :=
 Definition const_of_obj (f : list (str * json)) (ci : list (str * interp)) : res iconst :=
   if jhas f "int" then
     match jget f (lit "int") with
-    | Some (JStr s) => match parse_int s with Some z => OK (IInt z) | None => Err ValueError end
+    | Some (JStr s) => match parse_int_text s with Some z => OK (IInt z) | None => Err ValueError end
     | _ => Err TypeError
     end
   else if jhas f "float" then
